@@ -160,18 +160,21 @@ Theorem C08_former_witnesses_fixed :
   (exists n', rt_seq float ffalsy cfg_fixed [FPickle; FDb] (g2 (SPrior 0 (gau (Some 0))) (SConst 1%float) []) = Ok n').
 Proof. exact former_witnesses_fixed. Qed.
 
-(* ---- the full statement is refuted on the faithful model of the pinned code ---- *)
-Theorem C08_db_refuted :
+(* ---- the full statement is refuted on the faithful model: *_refuted = defects the tree still has (arithmetic
+   operand names, components without free parameters written as instances); *_legacy_refuted = history, statements
+   about cfg_pinned (the tree as it was pinned) whose defects are repaired in /repo (111eb99, a2e2dae, a21f2bc, 04fca50):
+   their positive counterparts for the code as it is are C08_iter_fixed and C08_former_witnesses_fixed ---- *)
+Theorem C08_db_legacy_refuted :
   exists n n', consistent float n /\ db_rt float cfg_pinned n = Ok n' /\
                prior_count float (tree float n) = 2 /\ prior_count float (tree float n') = 1 /\ ~ equiv float n n'.
 Proof. exact db_merges_refuted. Qed.
 
-Theorem C08_db_order_refuted :
+Theorem C08_db_order_legacy_refuted :
   exists n n', db_rt float cfg_pinned n = Ok n' /\ unique_prior_paths float (tree float n) = [["m"; "a"]; ["s"]]%string
                /\ unique_prior_paths float (tree float n') = [["s"]; ["m"; "a"]]%string.
 Proof. exact db_order_refuted. Qed.
 
-Theorem C08_pickle_then_db_refuted :
+Theorem C08_pickle_then_db_legacy_refuted :
   exists n, guard float ffalsy cfg_pinned FDb n = true /\ rt_seq float ffalsy cfg_pinned [FPickle; FDb] n = Err EAttributeError.
 Proof. exact pickle_then_db_refuted. Qed.
 
@@ -193,16 +196,16 @@ Theorem C08_zero_prior_extra_refuted :
   exists n, dict_rt float ffalsy cfg_pinned n = Err ETypeError /\ pickle_rt float n = Ok n /\ db_rt float cfg_pinned n = Ok n.
 Proof. exact zero_prior_extra_refuted. Qed.
 
-Theorem C08_loggaussian_refuted :
+Theorem C08_loggaussian_legacy_refuted :
   exists n, dict_rt float ffalsy cfg_pinned n = Err ETypeError /\ dict_rt float ffalsy cfg_fixed n <> Err ETypeError.
 Proof. exact loggaussian_refuted. Qed.
 
-Theorem C08_falsy_refuted :
+Theorem C08_falsy_legacy_refuted :
   exists n n', dict_rt float ffalsy cfg_pinned n = Ok n' /\
                snode_eqb (smap float (forget_f float) n') (smap float (forget_f float) n) = false.
 Proof. exact falsy_refuted. Qed.
 
-Theorem C08_chained_refuted :
+Theorem C08_chained_legacy_refuted :
   db_rt float cfg_pinned w_chain = Err EAttributeError /\ guard float ffalsy cfg_pinned FDict w_chain = true.
 Proof. exact chained_refuted. Qed.
 
@@ -211,7 +214,7 @@ Print Assumptions C08_dict_partial.
 Print Assumptions C08_iter_partial.
 Print Assumptions C08_iter_fixed.
 Print Assumptions C08_instance.
-Print Assumptions C08_db_refuted.
+Print Assumptions C08_db_legacy_refuted.
 Print Assumptions C08_dict_image.
 Print Assumptions C08_db_arith.
 Print Assumptions C08_dict_arith.
